@@ -51,7 +51,7 @@ def gen_case(streams, tier):
                        awk_exclude=('tmp', 'é'),
                        class_pool=['bit', 'small', 'mid', 'w64'],
                        mem_wide_aw=0.0, mem_aw=(1, 4), rom_aw_max=3, regs=(0, 3), roms=(0, 2),
-                       two_write_ports=0.4)
+                       two_write_ports=0.4, const_quote_prob=0.4)
     script = gen.gen_script(g, cfg)
     # (not copy / optimized copy: they create MemBlocks, and the process-wide memory id counter,
     # which names the Verilog arrays, is not something the property holds constant)
